@@ -98,6 +98,14 @@ type world struct {
 	tmp       bool
 	shapes    []locShape
 	fresh     bool // first worker of the shard (not a restart after a death)
+	// grammar-directed generators (grammar.go)
+	pemTails   []pemPiece
+	pemCases   []pemCase
+	sigs       []eventSig
+	sigCases   []sigCase
+	scanDir    string // source tree the signature dictionary was extended from ("" = not found)
+	scanned    int    // 16-byte constants found there
+	scannedNew int    // of which not in the specification's list
 }
 
 func parseKey(p string) *rsa.PrivateKey {
